@@ -22,7 +22,10 @@ RULE = ("case = family x boundary flag x d in 1..3 x domain [a,b] (ends from sma
         "1,3,5 (boundary True/False); 'trap_boundary': Trapezoidal boundary=False against boundary=True and against "
         "the composite trapezoidal model. Non-trivial = d>=2 and some visited area is a proper sub-box with a "
         "non-constant level vector (trap_boundary additionally: that area touches the global boundary, i.e. points "
-        "are really dropped). Distinct = distinct case dict.")
+        "are really dropped). Per area: integrate(1+linear) is called first while the grid still sits on the previous "
+        "area (stale state), then setCurrentArea, points, weights, announced numbers, integrate of a vector valued "
+        "function (all t-monomials up to the nominal degree, sampled if > 400/120, + nodal unit functions when <= "
+        "300/64 points) and of a random scalar combination. Distinct = distinct case dict.")
 ASSUMPTIONS = [
     "boundary=False is exercised for TrapezoidalGrid and BSplineGrid only; Simpson/Clenshaw-Curtis/Leja/Lagrange "
     "with boundary=False have no caller, test or tutorial in the repository and are excluded (DESIGN section 3.1)",
@@ -50,9 +53,9 @@ NODAL = ("trapezoidal", "simpson", "cc", "leja", "gauss")
 HIER = ("lagrange", "bspline")
 
 # tolerances (relative to the box volume; all test functions are bounded by 1 on the box).
-# observed maxima on the unchanged tree (quick + thorough): exactness nodal 2.4e-13 (boxes of width 0.0125 at x=10:
-# the conditioning of t=(x-mid)/half), Leja 5e-14, hierarchical 1.5e-13; sum of weights 6e-16 (hier. 3e-14);
-# unit function vs weight 0.  A real defect (wrong weight, wrong knot, wrong area) shows at >= 1e-4.
+# observed maxima on the unchanged tree (60 000 thorough cases): exactness nodal 2.4e-13 (boxes of width 0.0125 at
+# x=10: the conditioning of t=(x-mid)/half), Leja 1.4e-13, hierarchical 1.7e-13; sum of weights 8e-16 (hierarchical
+# 3.6e-14, linearity 5.6e-14); unit function vs weight 0.  A real defect (wrong weight, wrong knot, wrong area) shows at >= 1e-4.
 TOL_EXACT = {"trapezoidal": 5e-11, "simpson": 5e-11, "cc": 5e-11, "gauss": 5e-11, "leja": 1e-9,
              "lagrange": 1e-10, "bspline": 1e-10}
 TOL_WSUM = {"trapezoidal": 1e-12, "simpson": 1e-12, "cc": 1e-12, "gauss": 1e-12, "leja": 1e-10}
@@ -624,7 +627,7 @@ def case_strategy(families, tier, boundary_choices, point_cap):
 
 
 def nodal_strategy(tier):
-    return case_strategy(list(NODAL), tier, {}, 2500 if tier == "quick" else 5000)
+    return case_strategy(list(NODAL), tier, {}, 2500 if tier == "quick" else 3000)
 
 
 def hier_strategy(tier):
@@ -726,10 +729,10 @@ def selftest():
 
 
 SUBS = [
-    Sub("nodal", nodal_strategy, run_nodal, dict(quick=3600, thorough=40000),
-        budget_s=dict(quick=40, thorough=420), fixed_cases=nodal_fixed),
+    Sub("nodal", nodal_strategy, run_nodal, dict(quick=3600, thorough=20000),
+        budget_s=dict(quick=24, thorough=240), fixed_cases=nodal_fixed),
     Sub("hier", hier_strategy, run_hier, dict(quick=2000, thorough=20000),
-        budget_s=dict(quick=45, thorough=500), fixed_cases=hier_fixed),
+        budget_s=dict(quick=24, thorough=240), fixed_cases=hier_fixed),
     Sub("trap_boundary", trap_boundary_strategy, run_trap_boundary, dict(quick=2400, thorough=24000),
-        budget_s=dict(quick=25, thorough=240), fixed_cases=trap_fixed),
+        budget_s=dict(quick=12, thorough=120), fixed_cases=trap_fixed),
 ]
